@@ -1477,7 +1477,7 @@ pub fn evidence_meta(prop: &str) -> (&'static str, String, Value, Vec<String>) {
     if matches!(prop, "C03" | "C05" | "C11" | "C13" | "C14") {
         real.push("EmbeddedFS over /verif/fixtures/embedded (rust-embed, debug-embed)");
     }
-    if matches!(prop, "C08" | "C10" | "C13" | "C15" | "C19" | "C20") {
+    if matches!(prop, "C08" | "C10" | "C12" | "C13" | "C15" | "C19" | "C20") {
         real.push("async port: AsyncVfsPath and src/async_vfs/path.rs, AsyncMemoryFS, AsyncPhysicalFS, AsyncAltrootFS, AsyncOverlayFS (polled by the simulator's own executor; the C08/C19 mirrors enter a current-thread tokio runtime because the async physical time setters need one)");
         wrappers.push("PendFS (async twin of SimFS: seeded Pending injection at every trait call and handle poll, k-th-call failure, recorder of mutating calls)");
     }
